@@ -192,8 +192,9 @@ def find (fs : FSMap) (codebase : List String) (config : List (String × List En
         w := { w with plat := p2 }
         match found with
         | some f =>
-          w := { w with st := w.st.insertFile fs f }
-          if w.st.err.isNone then w := assocFile fs f w
+          if !w.plat.skip.contains f then
+            w := { w with st := w.st.insertFile fs f }
+            if w.st.err.isNone then w := assocFile fs f w
         | none => pure ()
       if w.st.err.isNone then w := assocFile fs e.file w
       st := w.st
